@@ -77,6 +77,7 @@ type VC struct {
 	heapSorts map[string]string
 	rangeFacts map[int]bool
 	deferred []*ast.DeferStmt
+	onceAxioms map[string]bool
 	globalsInit map[string]bool
 	labels map[ast.Stmt]string
 	ghost  map[string]Val
@@ -90,6 +91,18 @@ type VC struct {
 	strKeys map[int]*Term // content key of strings built by concatenation (by array-id term)
 	inlineMode bool
 	retCount int
+}
+
+// assumeOnce adds a global axiom once per unit.
+func (vc *VC) assumeOnce(key string, t *Term) {
+	if vc.onceAxioms == nil {
+		vc.onceAxioms = map[string]bool{}
+	}
+	if vc.onceAxioms[key] {
+		return
+	}
+	vc.onceAxioms[key] = true
+	vc.assume(t)
 }
 
 func (vc *VC) fresh(prefix, sortS string) *Term {
